@@ -216,7 +216,7 @@ def ble_oracle(ix: Index, scn: dict) -> list[Violation]:
     # leak audit
     a = ix.audit
     if a is not None and not [p for p in a["pending_ops"] if p[2].startswith("ble.")]:
-        unsubbed = sum(1 for op in ix.ops if op.do in ("ble.unsub", "ble.notify_stop") and op.ok and op.value != "no-subscription")
+        unsubbed = sum(1 for op in ix.ops if op.do in ("ble.unsub", "ble.notify_stop") and op.ok and op.value not in ("no-subscription", "again"))
         for cinfo in a["conns"]:
             if cinfo["state"] != "CONNECTED":
                 continue
@@ -288,6 +288,9 @@ def gen_c16(rng: random.Random) -> dict:
         steps = [st]
         if do in ("ble.connect", "ble.notify") and rng.random() < 0.5:
             steps += [{"do": "sleep", "d": pick(rng, [0.5, 2.0])}, {"do": "ble.unsub", "tag": f"w{i}"} if do == "ble.connect" else {"do": "ble.notify_stop", "tag": f"w{i}", "remove_only": rng.random() < 0.4}]
+            for _ in range(pick(rng, [0, 0, 1, 2])):
+                # the returned unsubscribe / remove callables are idempotent: calling them again must not touch anyone else
+                steps += [{"do": "sleep", "d": pick(rng, [0.0, 0.1, 0.5, 1.0])}, dict(steps[-1])]
         actors.append({"id": f"w{i}", "at": {"t": t0}, "steps": steps, "eager": rng.random() < 0.7})
         ops.append((f"w{i}", do, addr, h, t0, st.get("timeout", 30.0)))
     for _ in range(rng.randint(0, 12)):
